@@ -285,6 +285,12 @@ def run(ch: Checker) -> None:
     ch.check(bad2c is None and n2c > 0, 'C09.2c', rfd, 'chunk chain on every data path', 'the plugin loop lies between recv() and client.queue() on all %d path(s)' % n2c,
              bad2c[0] if bad2c else 'no relaying path found', witness=bad2c[1] if bad2c else None)
 
+    # ---------------- C09.4b (shared)
+    ch.import_rules('C06', {'C06.1': 'C09.4b'}, 'exactly the plugin\'s chosen response is sent only if the builder frames the body it is given (Content-Length of this body, not a value left in a reused header map)')
+
+    # ---------------- C09.1b (shared)
+    ch.import_rules('C08', {'C08.2': 'C09.1b'}, 'the authentication plugin runs ahead of user plugins only if it is loaded ahead of them')
+
     # ---------------- C09.4
     rej = prog.class_named('HttpRequestRejected')
     rf = rej.methods.get('response')
